@@ -610,6 +610,7 @@ class Composite(LexicalParent[Node], HasCreator, Node, ABC):
             for child in self
             for inp in panel_getter(child)
             for out in inp.connections
+            if out.owner.parent is self  # Labels only identify our own children
         ]
 
     @staticmethod
@@ -644,6 +645,7 @@ class Composite(LexicalParent[Node], HasCreator, Node, ABC):
             for child in self
             for out in child.signals.output
             for inp in out.connections
+            if inp.owner.parent is self
         ]
 
     @property
